@@ -262,6 +262,17 @@ pub struct SearchSpec {
     pub no_sketch: bool,
 }
 
+/// Caller identity for ACL-aware retrieval (C12).
+#[derive(Serialize, Deserialize, Clone, Debug, PartialEq, Default)]
+pub struct AclCtx {
+    pub tenant: Option<String>,
+    pub subject: Option<String>,
+    #[serde(default)]
+    pub roles: Vec<String>,
+    #[serde(default)]
+    pub groups: Vec<String>,
+}
+
 #[derive(Serialize, Deserialize, Clone, Debug, PartialEq)]
 pub struct TimelineSpec {
     pub limit: Option<u64>,
@@ -311,6 +322,9 @@ pub enum Op {
     Search(SearchSpec),
     Timeline(TimelineSpec),
     SearchVec { q: Vec<f32>, k: usize },
+    /// C12: retrieval with a caller context; entry 0 = search, 1 = vec_search_with_embedding_acl,
+    /// 2 = search_adaptive_acl, 3 = ask (lexical mode, no embedder)
+    AclSearch { spec: SearchSpec, ctx: Option<AclCtx>, enforce: bool, entry: u8, emb: Vec<f32> },
     /// engine 2 (C05): an operation on the embedded WAL itself
     Wal(crate::walsim::WalOp),
     /// C17, second actor ("another process"): a writable Memvid::open of the same path through an
@@ -355,6 +369,7 @@ impl Op {
             Op::Search(_) => "search",
             Op::Timeline(_) => "timeline",
             Op::SearchVec { .. } => "search_vec",
+            Op::AclSearch { .. } => "acl_search",
             Op::Wal(_) => "wal",
             Op::Open2 => "open2",
             Op::LockProbe => "lock_probe",
